@@ -1,4 +1,6 @@
 """C05 — The daemon never blocks: every request completes in bounded time."""
+import os
+
 from props.common import *      # noqa: F401,F403
 from props.common import pattern, Window, finish, G
 from vt.clock import CLOCK
@@ -43,6 +45,10 @@ def scenarios(tier):
     # on-demand watcher: a worker dies / incr after the first connection, then the next socket event
     for tail in ('die', 'incr'):
         out.append(Scenario('ondemand', tail=tail, n=2, nodet=True))
+    # captured output: bursts around the read buffer size
+    for size in (1, 1023, 1024, 1025, 2048, 4096, 5000):
+        for chan in ('stdout', 'stderr'):
+            out.append(Scenario('output', size=size, chan=chan, nodet=True))
     # read-only probes at every L-point of canonical long operations
     for op in ('stop', 'restart', 'reload-seq', 'incr', 'quit', 'kill-long'):
         for pat in ('stubborn', 'slow'):
@@ -51,7 +57,7 @@ def scenarios(tier):
 
 
 def bound(tier, scn):
-    if scn.name in ('probe', 'ondemand'):
+    if scn.name in ('probe', 'ondemand', 'output'):
         return 0
     return 1 if tier == 'quick' else 2
 
@@ -96,6 +102,8 @@ def run(scn, ch):
     res = Result()
     if scn.name == 'ondemand':
         return _run_ondemand(scn, ch, res)
+    if scn.name == 'output':
+        return _run_output(scn, ch, res)
     world = World(ch, [WSpec('a', numprocesses=scn.n, graceful_timeout=G, warmup_delay=scn.w,
                              behaviours=pattern(scn.pat), respawn=scn.p.get('respawn', True)),
                        WSpec('b', numprocesses=1, graceful_timeout=G)])
@@ -215,6 +223,37 @@ def _run_probe(scn, ch, res, world):
         return finish(world, res)
     except Abort as e:
         res.check('C05.callback_budget', False, 'probe %s: %s' % (scn.op, e), where=world.blocked_site())
+        return finish(world, res, aborted=str(e))
+
+
+def _run_output(scn, ch, res):
+    """A worker whose output is captured writes a burst (sizes around the 1024-byte read buffer, exact multiples included)
+    and stays silent: the loop goes on, read-only requests are answered."""
+    got = []
+    world = World(ch, [WSpec('a', numprocesses=1, graceful_timeout=G, stdout_stream={'stream': got.append},
+                             stderr_stream={'stream': got.append})])
+    try:
+        world.boot()
+        world.run(until=lambda w: w.boot_future.done(), horizon=5)
+        world.run(horizon=0.3)
+        p = world.procs_of('a', [RUNNING])[0]
+        fd = p.out_w if scn.chan == 'stdout' else p.err_w
+        os.write(fd, b'x' * scn.size)
+        world.run(horizon=1.5)
+        for cmd, props in (('status', {'name': 'a'}), ('list', {'name': 'a'}), ('numprocesses', {'name': 'a'})):
+            rq = world.request(cmd, **props)
+            res.check('C05.readonly_immediate', rq.replied() and rq.reply().get('status') in ('ok', 'active'),
+                      lambda: 'read-only %s after an output burst of %d bytes answered %r' % (cmd, scn.size, rq.reply()),
+                      where='commands.' + cmd)
+        n = sum(len(d['data']) for d in got)
+        res.check('C05.loop_goes_on', n == scn.size, lambda: 'worker wrote %d bytes, %d were read after 1.5 s' % (scn.size, n),
+                  where='redirector.Handler')
+        res.ev('C05.callback_budget', True)
+        res.outcome = digest([scn.size, n])
+        return finish(world, res)
+    except Abort as e:
+        res.check('C05.callback_budget', False, 'output burst of %d bytes: %s at %s' % (scn.size, e, CLOCK.blocked_where),
+                  where=world.blocked_site())
         return finish(world, res, aborted=str(e))
 
 
